@@ -240,3 +240,114 @@ theorem hasName_updateVariables {α : Type} : ∀ (y : List (String × α)) (m m
     · cases h
 
 end Mxl.C20
+namespace Mxl.C20
+
+theorem lookup_isSome_of_mem_keys {α : Type} : ∀ (l : List (String × α)) (n : String), n ∈ l.map (·.1) →
+    (l.lookup n).isSome = true := by
+  intro l
+  induction l with
+  | nil => intro n h; simp at h
+  | cons kv l ih =>
+    intro n h
+    obtain ⟨k, w⟩ := kv
+    by_cases hk : n = k
+    · subst hk; simp [List.lookup_cons]
+    · have hnk : (n == k) = false := by simp [hk]
+      simp only [List.map_cons, List.mem_cons] at h
+      rcases h with h | h
+      · exact absurd h hk
+      · simp only [List.lookup_cons, hnk]; exact ih n h
+
+/-- the assignment loop succeeds when the updates name every listed name -/
+theorem setAll_isSome {α : Type} (u : List (String × α)) : ∀ (names : List String) (l : List (String × α)),
+    (∀ p ∈ names, (u.lookup p).isSome = true) → (setAll u names l).isSome = true := by
+  intro names
+  induction names with
+  | nil => intro l _; simp [setAll]
+  | cons p rest ih =>
+    intro l h
+    simp only [setAll, List.foldlM_cons]
+    cases hp : u.lookup p with
+    | none => have := h p (by simp); simp [hp] at this
+    | some v =>
+      simp only [Option.map_some, Option.bind_eq_bind, Option.bind_some]
+      exact ih (setVal l p v) (fun q hq => h q (by simp [hq]))
+
+/-- one residual evaluation (as the drivers run it: a failing assignment leaves the model as it was) keeps the names of
+the model's parameters and variables -/
+theorem applyUpdates_getD_names {α : Type} (y0 : Option (List (String × α))) (pN vN : List String) (m : ModelVals α)
+    (u : List (String × α)) (n : String) :
+    hasName ((applyUpdates y0 pN vN m u).getD m).pars n = hasName m.pars n ∧
+    hasName ((applyUpdates y0 pN vN m u).getD m).vars n = hasName m.vars n := by
+  cases h : applyUpdates y0 pN vN m u with
+  | none => simp
+  | some m' =>
+    simp only [Option.getD_some]
+    have main : ∀ m1 : ModelVals α, m1.pars = m.pars → (∀ n, hasName m1.vars n = hasName m.vars n) →
+        ((setAll u pN m1.pars).bind fun pars => (setAll u vN m1.vars).bind fun vars =>
+          some ({ pars := pars, vars := vars } : ModelVals α)) = some m' →
+        hasName m'.pars n = hasName m.pars n ∧ hasName m'.vars n = hasName m.vars n := by
+      intro m1 hp hv hh
+      cases h2 : setAll u pN m1.pars with
+      | none => simp [h2] at hh
+      | some pars =>
+        simp only [h2, Option.bind_some] at hh
+        cases h3 : setAll u vN m1.vars with
+        | none => simp [h3] at hh
+        | some vars =>
+          simp only [h3, Option.bind_some, Option.some.injEq] at hh
+          subst hh
+          exact ⟨by rw [(setAll_lookup u pN m1.pars pars h2 n).2.2, hp],
+                 by rw [(setAll_lookup u vN m1.vars vars h3 n).2.2, hv]⟩
+    cases y0 with
+    | none =>
+      simp only [applyUpdates, Option.bind_eq_bind, Option.bind_some] at h
+      exact main m rfl (fun _ => rfl) h
+    | some y =>
+      simp only [applyUpdates, Option.bind_eq_bind] at h
+      cases h1 : updateVariables m y with
+      | none => simp [h1] at h
+      | some m1 =>
+        simp only [h1, Option.bind_some] at h
+        have := hasName_updateVariables y m m1 h1
+        exact main m1 this.1 this.2 h
+
+/-- … and so does any number of evaluations, on the working model of a fit -/
+theorem FitEnv.run_work_names {α : Type} (y0 : Option (List (String × α))) (pN vN : List String) (n : String) :
+    ∀ (ps : List (List (String × α))) (e : FitEnv (ModelVals α)),
+      hasName ((e.run (fun m u => (applyUpdates y0 pN vN m u).getD m) ps).work).pars n = hasName e.work.pars n ∧
+      hasName ((e.run (fun m u => (applyUpdates y0 pN vN m u).getD m) ps).work).vars n = hasName e.work.vars n := by
+  intro ps
+  induction ps with
+  | nil => intro e; exact ⟨rfl, rfl⟩
+  | cons p ps ih =>
+    intro e
+    have h1 := ih (FitEnv.evalResidual (fun m u => (applyUpdates y0 pN vN m u).getD m) e p)
+    have h2 := applyUpdates_getD_names y0 pN vN e.work p n
+    simp only [FitEnv.run, List.foldl_cons] at h1 ⊢
+    simp only [FitEnv.evalResidual] at h1 h2 ⊢
+    exact ⟨h1.1.trans h2.1, h1.2.trans h2.2⟩
+
+/-- what `fitDriver` reports is the wrapper chain around the minimiser -/
+theorem fitDriver_fit {α : Type} [LE α] [DecidableLE α] (sb dc : Bool) (y0 : Option (List (String × α)))
+    (model : ModelVals α) (p0 : List (String × α)) (cands : List (List α)) (fail : Bool)
+    (residual : List (String × α) → α) :
+    (fitDriver sb dc y0 model p0 cands fail residual).fit =
+      fitWrap (localScipyCall (if fail then fun _ _ => none else scriptedMinimise cands)) residual p0 := by
+  unfold fitDriver
+  simp only
+  split <;> simp_all
+
+/-- without `_set_best` the returned model is the working model after the last evaluation -/
+theorem fitDriver_false_work {α : Type} [LE α] [DecidableLE α] (dc : Bool) (y0 : Option (List (String × α)))
+    (model : ModelVals α) (p0 : List (String × α)) (cands : List (List α)) (fail : Bool)
+    (residual : List (String × α) → α) :
+    (fitDriver false dc y0 model p0 cands fail residual).work =
+      ((FitEnv.start dc model).run
+        (fun m u => (applyUpdates y0 (routeNames model (p0.map (·.1))).1 (routeNames model (p0.map (·.1))).2 m u).getD m)
+        (scriptedTrace (p0.map (·.1)) cands (p0.map (·.2)))).work := by
+  unfold fitDriver
+  simp only
+  split <;> simp
+
+end Mxl.C20
